@@ -108,12 +108,20 @@ func (s *simSock) WriteTo(b []byte, addr net.Addr) (int, error) {
 	}
 	s.writes++
 	s.mu.Unlock()
-	ua, ok := addr.(*net.UDPAddr)
-	if !ok {
+	var (
+		ipb  net.IP
+		port int
+	)
+	switch ua := addr.(type) {
+	case *net.UDPAddr:
+		ipb, port = ua.IP, ua.Port
+	case *net.TCPAddr: // passive TCP candidates write through a packet conn too
+		ipb, port = ua.IP, ua.Port
+	default:
 		return 0, fmt.Errorf("simSock: unexpected addr type %T", addr) //nolint:err113
 	}
-	ip, _ := netip.AddrFromSlice(ua.IP)
-	s.w.emit(s, netip.AddrPortFrom(ip.Unmap(), uint16(ua.Port)), b) //nolint:gosec
+	ip, _ := netip.AddrFromSlice(ipb)
+	s.w.emit(s, netip.AddrPortFrom(ip.Unmap(), uint16(port)), b) //nolint:gosec
 
 	return len(b), nil
 }
@@ -608,6 +616,7 @@ const (
 	simKindNATHost  = 1 // NATed: host candidate advertises the private (unroutable) address; pub is learnt only as prflx
 	simKindSrflx    = 2 // NATed: srflx candidate advertises the public address
 	simKindRelayish = 3 // pub == priv, candidate typed relay (lowest priority)
+	simKindTCPHost  = 4 // passive TCP host candidate (the socket is a packet conn, as with a TCP mux)
 )
 
 // addLocal creates a socket + local candidate and starts it in the agent.
@@ -622,6 +631,8 @@ func (ag *simAgent) addLocal(idx int, v6 bool, kind int, reusePorts bool) (*simS
 	switch kind {
 	case simKindHost, simKindNATHost:
 		c, err = NewCandidateHost(&CandidateHostConfig{Network: "udp", Address: priv.Addr().String(), Port: int(priv.Port()), Component: 1})
+	case simKindTCPHost:
+		c, err = NewCandidateHost(&CandidateHostConfig{Network: "tcp", Address: priv.Addr().String(), Port: int(priv.Port()), Component: 1, TCPType: TCPTypePassive})
 	case simKindSrflx:
 		c, err = NewCandidateServerReflexive(&CandidateServerReflexiveConfig{
 			Network: "udp", Address: pub.Addr().String(), Port: int(pub.Port()), Component: 1,
